@@ -65,4 +65,42 @@ theorem emLine_slashes (wf : Bool) (s : EmSt) : (emLine wf s slashes).1 = {} := 
   have h7 : hasPrefix emSEQ slashes = false := by decide
   simp [emLine, h1, h2, h3, h4, h5, h6, h7]
 
+/-- the records `EmblChunkParser` returns (it has no error path) -/
+def emblRecs (wf : Bool) (c : Seq) : List Rec := (emRun wf {} (linesScan c)).2
+
+theorem parseEmbl_eq (wf : Bool) (c : Seq) : parseEmbl wf c = .ok (emblRecs wf c) := rfl
+
+/-- the text ends with an end-of-record line: `\n//\n` or `\n//\r\n` -/
+def FlatEnd (a : Seq) : Prop := ∃ p, a = p ++ [10, 47, 47, 10] ∨ a = p ++ [10, 47, 47, 13, 10]
+
+theorem linesScan_flatEnd {a : Seq} (h : FlatEnd a) : ∃ L, linesScan a = L ++ [slashes] ∧
+    ∀ b, linesScan (a ++ b) = L ++ [slashes] ++ linesScan b := by
+  obtain ⟨p, h | h⟩ := h
+  · refine ⟨linesScan (p ++ [10]), ?_, ?_⟩
+    · rw [h]
+      have := linesScan_append p [47, 47, 10]
+      rw [this]; rfl
+    · intro b
+      have e1 : a ++ b = (p ++ [10, 47, 47]) ++ 10 :: b := by rw [h]; simp
+      have e2 : (p ++ [10, 47, 47]) ++ [10] = p ++ 10 :: [47, 47, 10] := by simp
+      rw [e1, linesScan_append, e2, linesScan_append]; rfl
+  · refine ⟨linesScan (p ++ [10]), ?_, ?_⟩
+    · rw [h]
+      have := linesScan_append p [47, 47, 13, 10]
+      rw [this]; rfl
+    · intro b
+      have e1 : a ++ b = (p ++ [10, 47, 47, 13]) ++ 10 :: b := by rw [h]; simp
+      have e2 : (p ++ [10, 47, 47, 13]) ++ [10] = p ++ 10 :: [47, 47, 13, 10] := by simp
+      rw [e1, linesScan_append, e2, linesScan_append]; rfl
+
+/-- **EMBL record locality**: after a text that ends with an end-of-record line the parser is in its
+initial state, so the records of `a ++ b` are the records of `a` followed by the records of `b`
+(whatever `b` is) -/
+theorem emblRecs_append (wf : Bool) {a : Seq} (h : FlatEnd a) (b : Seq) :
+    emblRecs wf (a ++ b) = emblRecs wf a ++ emblRecs wf b := by
+  obtain ⟨L, h1, h2⟩ := linesScan_flatEnd h
+  unfold emblRecs
+  rw [h2 b, h1, emRun_append, emRun_append]
+  simp only [emRun, emLine_slashes]
+
 end ObiVerif.Parse
